@@ -278,6 +278,16 @@ def joinSlash (cs : List Str) : Str := cs.flatMap (· ++ ['/'])
 def render (d : Loc) : Str :=
   (if d.abs then ['/'] else []) ++ joinSlash (List.replicate d.ups dotdot ++ d.names)
 
+/-- a name component: not empty, no '/', neither "." nor ".." -/
+def IsName (n : Str) : Prop := n ≠ [] ∧ '/' ∉ n ∧ n ≠ dot ∧ n ≠ dotdot
+
+/-- a location in canonical shape: absolute locations have no levels up; names are proper names -/
+def Loc.Valid (d : Loc) : Prop := (d.abs = true → d.ups = 0) ∧ ∀ n ∈ d.names, IsName n
+
+/-- the documented normal form of `processPath`: an optional root '/', then ".." components (only if
+    relative), then names, every component followed by exactly one '/' -/
+def NormalForm (s : Str) : Prop := ∃ d : Loc, d.Valid ∧ s = render d
+
 /-- spec of processPath -/
 def processPathS (p : Str) : Str := render (denote p)
 
